@@ -182,6 +182,14 @@ pub struct ReusedNameOpt {
     pub x: Option<u32>,
 }
 
+/// … and the re-added field made optional afterwards
+#[derive(BinaryCodec)]
+#[evolution(FieldRemoved("x"), FieldAdded("x", Some(5u8)), FieldMadeOptional("x"))]
+pub struct ReusedThenOptional {
+    pub a: u8,
+    pub x: Option<u8>,
+}
+
 macro_rules! rec_model {
     ($t:ident { $($f:ident : $ft:ty),+ }) => {
         impl Model for $t {
@@ -205,6 +213,7 @@ rec_model!(BadEvolution { a: u8 });
 include!("special_wide.rs");
 rec_model!(ReusedName { a: u32, x: u32 });
 rec_model!(ReusedNameOpt { a: u32, x: Option<u32> });
+rec_model!(ReusedThenOptional { a: u8, x: Option<u8> });
 
 // ---- twelve levels of records that all carry an evolution header (region / buffer stacks deeper than any generated nesting) ----
 
@@ -569,6 +578,15 @@ pub fn register(reg: &mut Registry) {
             steps: vec![Step::Removed("x".into()), Step::Added("x".into())],
         })),
     );
+    refmodel::register(
+        "ReusedThenOptional",
+        Ty::Record(Arc::new(RecordSchema {
+            name: "ReusedThenOptional".into(),
+            fields: vec![f::<u8>("a", false), sbase::fs::<Option<u8>>("x", true, false, Some(Val::some(Val::U(5))))],
+            steps: vec![Step::Removed("x".into()), Step::Added("x".into()), Step::MadeOptional("x".into())],
+        })),
+    );
+    reg.add_tagged::<ReusedThenOptional>("ReusedThenOptional", &["special:name_reused"]);
     reg.add_tagged::<ReusedName>("ReusedName", &["special:name_reused"]);
     reg.add_tagged::<ReusedNameOpt>("ReusedNameOpt", &["special:name_reused"]);
     // the nesting chain
@@ -587,6 +605,10 @@ pub fn register(reg: &mut Registry) {
     reg.add_tagged::<Nest0>("Nest0", &["special:deep_nesting"]);
     reg.add_tagged::<Nest8>("Nest8", &["special:deep_nesting"]);
     register_wide(reg);
+    // hash containers keyed by big decimals: hashing one costs 10^|exponent| (the dependency writes the number out)
+    reg.add_probe_only::<HashSet<BigDecimal>>("HashSet<BigDecimal>");
+    reg.add_probe_only::<HashMap<BigDecimal, u8>>("HashMap<BigDecimal, u8>");
+    reg.add_probe_only::<BTreeSet<BigDecimal>>("BTreeSet<BigDecimal>");
     refmodel::register("BigEnum", Ty::Enum(Arc::new(schema_bigenum())));
     refmodel::register("BigEnumSorted", Ty::Enum(Arc::new(schema_bigenumsorted())));
     reg.add_tagged::<BigEnum>("BigEnum", &["special:limits", "enum"]);
